@@ -223,11 +223,26 @@ def lib_vp(key, vp):
     return lib_value(key, vp)
 
 
-def lib_pattern(p):
+def lib_pattern(p, memo=None):
+    """memo (a dict): structurally equal sub-patterns become ONE library
+    object that is embedded several times (a pattern is a description: every
+    embedding is a stream of its own)."""
+    if memo is not None:
+        k = core.canon(p)
+        if k not in memo:
+            memo[k] = _lib_pattern(p, memo)
+        return memo[k]
+    return _lib_pattern(p, None)
+
+
+def _lib_pattern(p, memo):
     from sc3.seq.patterns import eventpatterns as ep
     from sc3.seq.patterns import filterpatterns as fp
     from sc3.seq.patterns.listpatterns import Pseq
     h = p[0]
+
+    def lib_pattern(c):
+        return globals()['lib_pattern'](c, memo)
     if h == 'Pbind':
         return ep.Pbind({k: lib_vp(k, v) for k, v in p[1].items()})
     if h == 'Pmono':
@@ -470,8 +485,10 @@ def compare(expected, score, lat):
         # the order of simultaneous bundles is not decided: pair by time,
         # then instrument name
         order = sorted(range(len(starts)),
-                       key=lambda i: (starts[i][1]['t'], starts[i][0]['instr']))
-        sn = sorted(snew, key=lambda s: (s['t'], str(s['name'])))
+                       key=lambda i: (starts[i][1]['t'], starts[i][0]['instr'],
+                                      str(starts[i][1]['tag'])))
+        sn = sorted(snew, key=lambda s: (s['t'], str(s['name']),
+                                         str(s['tag'])))
         for i, s in zip(order, sn):
             matched[i] = s
         for s in sn[len(order):]:
@@ -1123,6 +1140,24 @@ def gen_S(tier):
             yield case(['Pseq', [['Pdur', d, pb(ds, 40, inf=True)], MARK]])
             yield case(['Ppar', [['Pdur', d, pb(ds, 40, inf=True)],
                                  ['Pdelta', d, MARK]]])
+    # S8 one pattern OBJECT embedded several times (sequentially, in parallel
+    # with itself, as a canon): every embedding is a stream of its own
+    for a in d2[:4] if q else d2:
+        for b in ([[0.5], [0.25, 0.25]] if q else d2):
+            themes = [['Ppar', [pb(a, 40), pb(b, 60, I_FAG)]],
+                      pb(a, 40, I_FAG),
+                      ['Pdur', 0.75, ['Ppar', [pb(a, 40, inf=True),
+                                               pb(b, 60, inf=True)]]],
+                      ['Pchain', [['Pbind', {'legato': 0.5}], pb(a, 40)]]]
+            for th in themes:
+                for whole in (['Ppar', [th, ['Pdelta', 0.25, th]]],
+                              ['Ppar', [th, th]],
+                              ['Pseq', [th, th]],
+                              ['Ppar', [['Pseq', [th, th]],
+                                        ['Pdelta', 0.5, th]]]):
+                    c = case(whole)
+                    c['share'] = True
+                    yield c
     # S6 Pdelta
     for t in (0.25, 1):
         for ds in d3:
@@ -1205,9 +1240,9 @@ def label(p):
     return p[0] + '(' + ','.join(sorted({c[0] for c in pat_children(p)})) + ')'
 
 
-def run_S(pat, at, clock, lat):
+def run_S(pat, at, clock, lat, share=False):
     def body():
-        p = lib_pattern(pat)
+        p = lib_pattern(pat, {} if share else None)
         if clock == 'tempo':
             from sc3.base.clock import TempoClock
             p.play(TempoClock(1))
@@ -1216,8 +1251,8 @@ def run_S(pat, at, clock, lat):
     return run_score(lat, body, at=at)
 
 
-def discs_S(pat, at, clock, lat, info=None):
-    r = run_S(pat, at, clock, lat)
+def discs_S(pat, at, clock, lat, info=None, share=False):
+    r = run_S(pat, at, clock, lat, share)
     if info is not None:
         info['outcome'] = renumber(r['score']) if r['score'] else r['exc']
     evs, total = ref.denote(pat)
@@ -1297,12 +1332,15 @@ def blame(pat, at, clock, lat, disc):
 
 def check_S(case, info):
     pat, at, clock, lat = case['pat'], case['at'], case['clock'], case['lat']
-    f = discs_S(pat, at, clock, lat, info)
+    share = bool(case.get('share'))
+    f = discs_S(pat, at, clock, lat, info, share)
     out = {}
     for disc in sorted(f):
         e, o, det = f[disc]
         node = blame(pat, at, clock, lat, disc)
         kind = f'S:{disc}:{label(node)}'
+        if share and node is pat:
+            kind += '@shared-object'
         if clock == 'tempo' and node is pat and pat[0] == 'Pbind':
             kind += '@TempoClock'
         if node is not pat:
